@@ -12,8 +12,8 @@ import (
 
 func init() {
 	register(&PropDef{
-		ID:    "C14",
-		Level: "proof",
+		ID:          "C14",
+		Level:       "proof",
 		Explanation: "Abstract interpretation of the chi router construction: every endpoint registered on the router tree that the server serves (verbs, Handle, Mount, NotFound …; discovered from the construction code, so a future route is included) has, in chi's middleware semantics, jwtauth.Verifier(tokenAuth) and later jwtauth.Authenticator in its effective stack, tokenAuth being the constructor's parameter; the only exception is a Mount of middleware.Profiler() that is control-dependent on the enableProfiling parameter. Also proved: Use precedes registrations in every inline group; the served http.Handler is that router and the only listener; tokenAuth is jwtauth.New(\"HS256\", []byte(validated secret), nil); the secret comes only from a configuration that passed validate()==nil (which rejects < 16 characters, table over lengths) or was generated with ≥ 16 characters; the profiling flag defaults to false. In the loaded jwtauth source: Authenticator reaches next.ServeHTTP only past err==nil, token!=nil and Validate==nil and answers 401 otherwise; VerifyToken returns a nil error only after Decode and Validate succeeded.",
 		Trusted: []string{
 			"chi v5 middleware stack semantics (mux.go: inline muxes wrap endpoints with their stack at registration; Route mounts through the enclosing stack)",
